@@ -261,26 +261,30 @@ def run(ctx):
 
     with ctx.rule("C03.BREAK", "separator ⇔ (before>0 ∨ after>0) ∧ has_sunk ∧ last_line_visited < start (16 rows); consulted before matches and before-context",
                   floor=18, exhaustive=True, kind="TRUTH/DOM") as r:
+        # decided on the MIR (a table over concrete values), so that guard clauses, a negated disjunction or a match spell
+        # the same decision: before/after ∈ {0, 1}, has_sunk ∈ {false, true}, last_line_visited = 5, start_of_line ∈ {5, 7}
+        from ..flow import table, ret_set
         f = facts.fn(CORE + "::sink_break_context")
-        tail = H.tail_expr(f.hir)
-        env = H.LetEnv(f.hir)
-        atoms = ["(self.last_line_visited Lt start_of_line)", "(self.config.before_context Gt 0)",
-                 "(self.config.after_context Gt 0)", "self.has_sunk"]
-        got = H.decision_atoms(tail, env)
-        if set(got) != set(atoms):
-            r.bad("atoms", "separator decision depends on %s, expected %s" % (got, atoms), fn=f)
+        cb = f.calls_to(SINK + "::context_break")
+        if not cb or f.argc < 2:
+            r.bad("atoms", "anchor-missing: sink_break_context(start_of_line) no longer calls Sink::context_break", fn=f)
         else:
-            for bits in itertools.product([False, True], repeat=4):
-                v = dict(zip(atoms, bits))
-                leaf = H.decide(tail, v, env)
-                sep = (v[atoms[1]] or v[atoms[2]]) and v[atoms[3]] and v[atoms[0]]
-                is_sep = "context_break" in leaf
-                is_true = leaf == "core::result::Result::Ok(true)"
-                key = "row|" + "".join("1" if b else "0" for b in bits)
-                if (sep and is_sep) or (not sep and is_true):
-                    r.ok(key, "gap=%d before=%d after=%d has_sunk=%d → %s" % (bits + ("separator" if sep else "none",)), fn=f)
+            rows = table(facts, f,
+                         fields={(SCFG, "before_context"): [I(0), I(1)], (SCFG, "after_context"): [I(0), I(1)],
+                                 (CORE, "has_sunk"): [I(0), I(1)], (CORE, "last_line_visited"): [I(5)]},
+                         args={2: [I(5), I(7)]})
+            for row, sx in rows:
+                b, a = row[("field", (SCFG, "before_context"))][1], row[("field", (SCFG, "after_context"))][1]
+                hs, gap = row[("field", (CORE, "has_sunk"))][1], int(row[("arg", 2)][1] > 5)
+                sep = bool((b or a) and hs and gap)
+                ran = any(c.bb in sx.exec_blocks for c in cb)
+                rv = ret_set(sx)
+                key = "row|%d%d%d%d" % (gap, b, a, hs)
+                if (sep and ran) or (not sep and not ran and rv == {V("Ok", I(1))}):
+                    r.ok(key, "gap=%d before=%d after=%d has_sunk=%d → %s" % (gap, b, a, hs, "separator" if sep else "none"), fn=f)
                 else:
-                    r.bad(key, "separator decision for gap=%s before>0=%s after>0=%s has_sunk=%s is `%s`" % (bits + (leaf,)), fn=f,
+                    r.bad(key, "separator decision for gap=%s before>0=%s after>0=%s has_sunk=%s: context_break %s, answer %s"
+                          % (bool(gap), bool(b), bool(a), bool(hs), "called" if ran else "not called", sorted(map(str, rv))), fn=f,
                           construct="separator")
         g = facts.fn(CORE + "::sink_matched")
         bc = g.calls_to(CORE + "::sink_break_context")
